@@ -83,8 +83,7 @@ def run_explorer(prop, tier, seed, procs, triage):
         "reference_cutoff": spec["D"],
         "samples": samples or [{"note": "no violating history; sample of explored worlds", "worlds": [w[0] for w in spec["worlds"]]}],
     }
-    if not samples:
-        coverage["samples"] = stats.get("sample_histories") or coverage["samples"]
+    coverage["samples"] = (samples + (stats.get("sample_histories") or [])) or coverage["samples"]
     coverage.update(extra_cov)
     report.write_evidence(prop, tier, seed, "model_checking" if prop != "C17" else "fault_enumeration",
                           coverage, stats["wall_s"], len(new), ASSUMPTIONS)
